@@ -1,6 +1,6 @@
 """C13 -- access lists exactly the non-N runs of the genome, joined and excluded as asked.
 D1 exclude files may overlap / nest (shared with C06), D2 join decision, D3 option gating and stage order in do_access,
-D4 the scanner never tests a position for truth (offset 0 is a valid run start)."""
+(D4, a syntactic `is None` rule, was retired: D2b decides it on literal texts)."""
 import ast
 import itertools
 from fractions import Fraction as Fr
@@ -21,11 +21,11 @@ LEVEL_TEXT = ('static analysis: (D1) every exclude file is subtracted through su
               ' up to 6 bases at line widths 1-4 and unbroken, plus two- and three-record files with empty, all-N and description-bearing records'
               ' -- reports exactly the maximal non-N runs of each record; (D3) do_access runs scan -> (contig filter iff skip_noncanonical) -> '
               'subtract each exclude file, whole, in order -> join with the given minimum gap, and the contig filter keeps exactly the names the '
-              "package's contig rule calls canonical; (D4) in the FASTA scanner the run-start / cursor positions are only ever tested with `is "
-              'None` / `is not None`, never for truth (a run starting at offset 0 is a run). (D5) the `access` command line through the argparse '
-              'model: every -x / --exclude file given (0..3 occurrences, both spellings), in order, and -s reach do_access; D3 also requires the '
-              'exclude files to be read as BED (not through format sniffing). Does not decide the line scanner beyond that scope (longer lines, '
-              'lower-case or other IUPAC letters) nor the contents of the contig-name pattern beyond the kinds the property names (C12-D5 table).')
+              "package's contig rule calls canonical; (A run starting at offset 0 of a record is among D2b's texts; the former syntactic `is "
+              'None` rule, D4, was retired as a text rule.) (D5) the `access` command line through the argparse model: every -x / --exclude file '
+              'given (0..3 occurrences, both spellings), in order, and -s reach do_access; D3 also requires the exclude files to be read as BED '
+              '(not through format sniffing). Does not decide the line scanner beyond that scope (longer lines, lower-case or other IUPAC '
+              'letters) nor the contents of the contig-name pattern beyond the kinds the property names (C12-D5 table).')
 TECHNIQUE = ('abstract interpretation of the join loop over gap order positions; recorded-summary interpretation of the stage order; None-vs-'
              'zero truthiness lint; bounded exhaustive interpretation of the scanner on literal texts; shared precondition rule; argparse model '
              'for the command-line glue')
